@@ -651,6 +651,9 @@ func (x *Exec) doMapUpdate(st *State, i *ssa.MapUpdate) {
 			if fa, ok := u.X.(*ssa.FieldAddr); ok {
 				name = fa.X.Type().Underlying().(*types.Pointer).Elem().Underlying().(*types.Struct).Field(fa.Field).Name()
 			}
+			if a, ok := u.X.(*ssa.Alloc); ok && a.Comment != "" {
+				name = a.Comment
+			}
 		}
 		x.siteBefore(st, i, "mapstore:"+name, []Value{x.val(st, i.Key), x.val(st, i.Value)})
 	}
